@@ -362,23 +362,43 @@ Definition adapter_check (s : sys) (c : nat) (v : chan) (use_conn : bool) : sys 
   if use_conn then let '(s', r) := conn_check s in (s', cur s' c v, r)
   else chan_check s c v.
 
-(* Rpc._wait_for_request(uuid, adapter); returns the unused rest of the script *)
+(* Rpc._wait_for_request(uuid, adapter); returns the unused rest of the script.
+   A returned message (AMQPMessageError out of the adapter's check) neither answers nor cancels
+   the request: it is held back while the wait goes on.  When the reply is in, the first held
+   error is raised (the request is forgotten, the others go back to the head of the queue); when
+   the wait fails, all of them go back and the failure is raised. *)
+Definition requeue (s : sys) (c : nat) (v : chan) (held : list err) : sys * chan :=
+  match held with
+  | [] => (s, v)
+  | _ => let v' := with_errs v (held ++ c_errs v) in (upd s c v', v')
+  end.
+
 Fixpoint wait_rpc (sc : script) (s : sys) (c : nat) (v : chan) (u : nat) (use_conn : bool)
-  : sys * chan * res unit * script :=
+         (held : list err) : sys * chan * res unit * script :=
   let v := cur s c v in
   match resp_get (c_resp v) u with
-  | Some (_ :: _) => (s, v, Ok tt, sc)
+  | Some (_ :: _) =>
+    match held with
+    | [] => (s, v, Ok tt, sc)
+    | h :: more =>
+      let v2 := with_rpc (with_errs v (more ++ c_errs v)) (req_del_uuid (c_req v) u) (resp_del (c_resp v) u) in
+      (upd s c v2, v2, Raise h, sc)
+    end
   | _ =>
     let '(s1, v1, r) := adapter_check s c v use_conn in
-    match r with
-    | Raise e => (s1, v1, Raise e, sc)
-    | Ok _ =>
+    let go (held' : list err) :=
       match sc with
       | [] => (* nothing more will come: rpc time-out; _raise_rpc_timeout_error removes the uuid *)
         let v2 := with_rpc v1 (req_del_uuid (c_req v1) u) (resp_del (c_resp v1) u) in
-        (upd s1 c v2, v2, Raise timeout_err, [])
-      | tick :: rest => wait_rpc rest (deliver_all s1 tick) c v1 u use_conn
-      end
+        let '(s3, v3) := requeue (upd s1 c v2) c v2 held' in
+        (s3, v3, Raise timeout_err, [])
+      | tick :: rest => wait_rpc rest (deliver_all s1 tick) c v1 u use_conn held'
+      end in
+    match r with
+    | Raise e =>
+      if ekind_eqb (e_kind e) EMsg then go (held ++ [e])
+      else let '(s3, v3) := requeue s1 c v1 held in (s3, v3, Raise e, sc)
+    | Ok _ => go held
     end
   end.
 
@@ -402,7 +422,7 @@ Definition get_request (sc : script) (s : sys) (c : nat) (v : chan) (u : nat)
   match resp_get (c_resp (cur s c v)) u with
   | None => (s, cur s c v, Ok None, sc)            (* `if uuid not in self._response: return` *)
   | Some _ =>
-    let '(s1, v1, r, sc1) := wait_rpc sc s c v u use_conn in
+    let '(s1, v1, r, sc1) := wait_rpc sc s c v u use_conn [] in
     match r with
     | Raise e => (s1, v1, Raise e, sc1)
     | Ok _ =>
